@@ -25,7 +25,7 @@ func init() {
 		ID: "C14",
 		Rule: "three workloads. pred-grid: ALL point triples with coordinates in [-2,2]^2 (15625 triples, exhaustive for that micro-domain, flagged exhaustive_micro) through the collinearity alias and TrimCollinear64 on the 3-point path; " +
 			"pred-rand: batches of 500 random operand tuples at magnitudes up to 2^29 with planted differences 0,+-1,+-2, exact collinear triples and products straddling 2^53, for isCollinear/productsAreEqual/multiplyUInt64/segsIntersect aliases against math/big; " +
-			"pred-paths: random and degenerate paths for Area64/AreaPaths64/IsPositive64/GetBounds64/PointInPolygon/Path2ContainsPath1-consistency against exact integer arithmetic. " +
+			"pred-paths: random and degenerate paths (and sets of 2..12 equally oriented rings, some filling most of the +-2^29 box, so that sums do not cancel) for Area64/AreaPaths64/IsPositive64/GetBounds64/PointInPolygon/Path2ContainsPath1-consistency against exact integer arithmetic. " +
 			"Non-trivial = a batch in which both answers (true and false) of the predicate under test were expected at least once; distinct by batch content hash.",
 		Assumptions: []string{"reference: math/big integer arithmetic (and the 128-bit helper, itself cross-checked against math/big in every batch)"},
 		Floor:       200,
@@ -381,6 +381,36 @@ func c14Paths(ctx *run.Ctx, r *gen.Rng) {
 		// area(path) + area(other) + area(reverse(path)) = area(other) up to float summation
 		if math.Abs(gotSet-w1) > (math.Abs(wantArea)*2+math.Abs(w1))*4e-16 {
 			ctx.Fail(dg, "AreaPaths64", "", fmt.Sprintf("AreaPaths64=%v expected %v (path + other + reversed path)", gotSet, w1), set)
+		}
+	}
+	// AreaPaths64 over many paths of ONE orientation (nothing cancels: the sum of the doubled areas can pass 2^63)
+	{
+		k := 2 + r.Intn(11)
+		many := make(Paths, 0, k)
+		sum := new(big.Int)
+		absSum := 0.0
+		for i := 0; i < k; i++ {
+			q := path
+			if i%3 == 2 {
+				q = other
+			}
+			if r.Chance(0.4) { // a ring that fills most of the coordinate box
+				q = gen.Box(-R+r.Range(0, R/8), -R+r.Range(0, R/8), R-r.Range(0, R/8), R-r.Range(0, R/8), true)
+			}
+			if oracle.Area2(q).Sign() < 0 {
+				q = gen.Reverse(q)
+			}
+			many = append(many, q)
+			sum.Add(sum, oracle.Area2(q).Big())
+			absSum += math.Abs(oracle.Area2(q).Float()) / 2
+		}
+		var got float64
+		if ctx.Guard(dg, "AreaPaths64/many", many, func() { got = clip.AreaPaths64(many) }) {
+			ctx.Eval(1)
+			want, _ := new(big.Float).SetPrec(200).Quo(new(big.Float).SetPrec(200).SetInt(sum), big.NewFloat(2)).Float64()
+			if math.Abs(got-want) > absSum*float64(k)*3e-16 {
+				ctx.Fail(dg, "AreaPaths64/many", "", fmt.Sprintf("AreaPaths64 of %d equally oriented paths = %v, exact %v", k, got, want), many)
+			}
 		}
 	}
 	// GetBounds64
